@@ -7,10 +7,15 @@ PENDING.update({
  "C11": "check not built yet in this round (planned: tsig simulation, DESIGN section 4)",
  "C14": "check not built yet in this round (planned: validator simulation, DESIGN section 4)",
  "C16": "check not built yet in this round (planned: server simulation, DESIGN section 4)",
- "C20": "check not built yet in this round (planned: cache simulation, DESIGN section 4)",
 })
 claim("C15", "exploration",
       "Seeded exploration of schedules and fault scripts: the six real client transports run over a simulated network against simulated peers on a virtual clock; every response is attributed through unique names/tokens, every request must complete once within its configured budget, fault-free runs must succeed. Evidence, not proof: a clean batch means no violation among the sampled executions.",
       "Trusted: tokio's paused clock/timers/channels; the simulated peers, network and oracle in /verif/sim; library tasks spawned with tokio::spawn are ordered FIFO by the runtime (perturbed by seeded stalls/delays, not chosen directly). Documented idle closure of a bare stream connection is modelled and accepted.",
       "deterministic simulation with fault injection (seeded schedule/fault search, replayable choice tape)",
       "DESIGN.md section 4, C15")
+
+claim("C20", "exploration",
+      "Seeded exploration of query/response histories on a virtual clock: the real cache sits between simulated clients and a simulated upstream whose every response is uniquely serialised; each delivered response must be the caller's own upstream response or an aged copy (same question, compatible RD/CD/AD/DO flags, records equal with TTLs reduced by the elapsed whole seconds, never increased) of a logged upstream response that is still within min(smallest TTL, max_validity, the bound of its RFC 2308 class). Evidence, not proof.",
+      "Trusted: tokio's paused clock, moka as a map with eviction (a miss is always acceptable), the upstream stub and the independent classification/aging model in /verif/sim. AA clearing and the stored header's ID are documented cache behaviour and accepted.",
+      "deterministic simulation on a virtual clock with history checking against a log-based reference model",
+      "DESIGN.md section 4, C20")
